@@ -857,7 +857,7 @@ func (m *Mint) MeltTokens(ctx context.Context, meltTokensRequest nut05.PostMeltB
 			)
 		} else {
 			m.logInfof("attempting to pay invoice: %v", meltQuote.InvoiceRequest)
-			sendPaymentResponse, err = m.lightningClient.SendPayment(ctx, meltQuote.InvoiceRequest, meltQuote.Amount)
+			sendPaymentResponse, err = m.lightningClient.SendPayment(ctx, meltQuote.InvoiceRequest, meltQuote.FeeReserve)
 		}
 		if err != nil {
 			// if SendPayment failed do not return yet, an extra check will be done
